@@ -389,6 +389,14 @@ class C14(Check):
                 okb, nb, _ = parse_manifest(p.rsplit("/", 1)[-1], dec(outcomes["orig"][p]))
                 if any(n in nb for n in need):
                     declared_somewhere = True
+            # a plain requirements.txt that declares other packages only can always take the new line
+            if exp["faults"] == "none":
+                for p in manifests:
+                    raw = dec(outcomes["orig"][p])
+                    okb, nb, _ = parse_manifest(p.rsplit("/", 1)[-1], raw)
+                    if p.rsplit("/", 1)[-1] == "requirements.txt" and okb and nb and raw.isascii() and b"\r" not in raw and not any(n in nb for n in need):
+                        add("updatable-manifest-not-updated", mname(p), {"path": p, "declared": nb[:6]})
+                        break
             failed_notice = "unable to automatically add" in desc
             success_notice = "automatically added this dependency" in desc
             if success_notice:
